@@ -660,6 +660,24 @@ fn write_tree(p: &Program, i: usize, dir: &FsPath, keep: &dyn Fn(usize) -> bool,
     }
 }
 
+/// identifier-shaped, for the ASCII names the harness writes
+fn ident_shaped(s: &str) -> bool {
+    let mut c = s.chars();
+    c.next().is_some_and(|f| f == '_' || f.is_ascii_alphabetic()) && c.all(|x| x == '_' || x.is_ascii_alphanumeric())
+}
+
+/// the `c13 discover` request for a directory: the names that are not
+/// identifier-shaped, then the listing
+fn discover_request(root: &FsPath, names: &mut Vec<String>) -> String {
+    let mut listing_toks = vec![];
+    listing(root, names, &mut listing_toks);
+    let bad: Vec<String> = names.iter().enumerate().filter(|(_, n)| !ident_shaped(n)).map(|(i, _)| i.to_string()).collect();
+    let mut toks = vec!["c13".to_string(), "discover".to_string(), "V".to_string(), bad.len().to_string()];
+    toks.extend(bad);
+    toks.extend(listing_toks);
+    toks.join(" ")
+}
+
 /// the listing of a directory in `read_dir` order, as tokens for the model;
 /// names are interned into `names`
 fn listing(dir: &FsPath, names: &mut Vec<String>, out: &mut Vec<String>) {
@@ -2299,9 +2317,8 @@ fn check_disk(rep: &mut Report, drv: &mut Driver, p: &Program, keep: &dyn Fn(usi
     rep.hist("disk_noise", format!("{:05b}", (noise >> 20) & 31));
     // discovery: model on the listing vs FileTree::read
     let mut names = p.names.clone();
-    let mut toks = vec!["c13".to_string(), "discover".to_string()];
-    listing(&root, &mut names, &mut toks);
-    let want = drv.ask(&toks.join(" "));
+    let toks = vec![discover_request(&root, &mut names)];
+    let want = drv.ask(&toks[0]);
     let tree = match FileTree::read(&root) {
         Ok(t) => t,
         Err(e) => {
@@ -2378,9 +2395,8 @@ fn check_disk(rep: &mut Report, drv: &mut Driver, p: &Program, keep: &dyn Fn(usi
             let name = &p.names[p.mods[c].ident];
             std::fs::write(root.join(format!("{name}.roto")), "fn zz() -> i64 { 0 }\n").expect("write");
             let mut names = p.names.clone();
-            let mut toks = vec!["c13".to_string(), "discover".to_string()];
-            listing(&root, &mut names, &mut toks);
-            let want = drv.ask(&toks.join(" "));
+            let toks = vec![discover_request(&root, &mut names)];
+            let want = drv.ask(&toks[0]);
             let twice = want.split_whitespace().filter(|t| t.split(':').next() == Some(&p.mods[c].ident.to_string())).count();
             let got = match FileTree::read(&root) {
                 Ok(tree) => compile_and_observe(tree, rt, &Ask { calls: vec![], gets: vec![] }, false).base,
@@ -2420,6 +2436,11 @@ fn check_disk(rep: &mut Report, drv: &mut Driver, p: &Program, keep: &dyn Fn(usi
             }))
             .unwrap_or_else(|_| format!("panic:{}", PANIC_MSG.lock().map(|g| g.clone()).unwrap_or_default()));
             rep.evaluations += 1;
+            let mut names = p.names.clone();
+            let model = drv.ask(&discover_request(&root, &mut names));
+            if model != "none" {
+                rep.mismatch(&format!("discovery model accepts a listing with `{rel}`: {model}"), json!({"case": ident, "variant": label}));
+            }
             rep.hist("disk_invalid_name", if got.contains("not a valid Roto identifier") { "rejected" } else { "accepted" });
             if !got.contains("not a valid Roto identifier") {
                 violate(
